@@ -676,6 +676,14 @@ func checkView(r *vrun.Run, rp *reporter, ctx context.Context, fsName string, v 
 			case int64(len(b)) != s.Size || hash12(b) != s.Hash:
 				rp.v(sig("ReadFile", "content", ec(p)), fmt.Sprintf("%s view: ReadFile(%q) returns %d bytes with a different content (source %d bytes)", fsName, vp, len(b), s.Size), nil)
 			}
+			// the view serves the same content every time it is asked
+			if err == nil && s.Size > 0 {
+				b2, err2 := v.ReadFile(vp)
+				r.Obs("view_files_read_twice_"+fsName, 1)
+				if err2 != nil || int64(len(b2)) != s.Size || hash12(b2) != s.Hash {
+					rp.v(sig("ReadFile", "second-read-differs", ec(p)), fmt.Sprintf("%s view: the second ReadFile(%q) returns %d bytes (err %v), the first returned the %d bytes of the source", fsName, vp, len(b2), err2, s.Size), nil)
+				}
+			}
 			r.Obs("view_files_read_"+fsName, 1)
 		}
 	}
